@@ -64,6 +64,7 @@ def case(draw):
     else:
         net = draw(gen_net.determined_network(noise=0))
     mode = draw(st.sampled_from(["exact", "small", "big", "omit", "omit"] if not pure else ["omit"]))
+    omit_all = pure and draw(st.booleans())      # a survey computed from scratch: no approximate position at all
     alg = draw(st.sampled_from(ALGS))
     given_ids = set(p["id"] for p in net["points"] if p.get("xy") == "fix" or p.get("z") == "fix")
     resolved = set(given_ids)
@@ -82,7 +83,7 @@ def case(draw):
             p["dN"] = draw(st.integers(-100, 100)) / 100.0 * d
             p["dH"] = draw(st.integers(-100, 100)) / 100.0 * d
         if mode == "omit":
-            if p["xy"] == "adj" and draw(st.booleans()):
+            if p["xy"] == "adj" and (omit_all or draw(st.booleans())):
                 ok = rxy in XY_OMIT_OK
                 if rxy == "trilateration":
                     ok = trilateration_resolvable(net, p)
